@@ -49,6 +49,17 @@ func variants() []Variant {
 		Quick:    4, Thorough: 5,
 	})
 
+	// burns and conversions to / from the ERC20 form side by side: only burns are tallied
+	vs = append(vs, Variant{
+		Name:    "burn-tally-with-erc20-conversions",
+		Issues:  []IssueSpec{{"tka", "uta", 0, 2, 3, true}},
+		IssueBy: []string{"A"},
+		Mints:   []MintSpec{{"1", "self"}},
+		Burns:   []string{"1"},
+		Convert: true,
+		Quick:   6, Thorough: 8,
+	})
+
 	// a token that came with the genesis and names no owner: every owner-only message on it, by anybody, must fail
 	vs = append(vs, Variant{
 		Name:         "ownerless-genesis-token",
